@@ -51,7 +51,14 @@ def run_scenario(sc: dict) -> list:
         elif ev[0] == "raised":
             trace.append({"k": "raised", "exc": ev[1]})
 
-    run = h1drv.H1Run(edits=edits, options={"store_streamed_bodies": True}, on_event=on_event)
+    # option settings are part of the scenario; the edit name "limit" stands for stream_large_bodies=6 on this connection
+    # (bodies are 9 bytes: Content-Length messages are streamed from the start, chunked / close-delimited ones are
+    # buffered first and switched to streaming when the buffer exceeds the limit -- HttpStream.check_body_size)
+    options = {"store_streamed_bodies": True}
+    if any(v == "limit" for v in edits.values()):
+        options["stream_large_bodies"] = "6"
+    options.update(sc.get("options") or {})
+    run = h1drv.H1Run(edits=edits, options=options, on_event=on_event)
     cstream = bytearray()  # everything the client sent
     cclosed = False
     n_in_req = 0
@@ -193,6 +200,9 @@ def req_plans(tier: str) -> list:
             if ed[0] == "stream" and ed[1] != "none":
                 continue
             out.append((rc, ed))
+    for rc in (RC(te="chunked"), RC(te="gzip_chunked", body="ext"), RC(te="chunked", body="upper"), RC(cl="n"),
+               RC(te="chunked", body="zero"), RC(te="chunked", exp=True)):
+        out.append((rc, ("limit", "none")))
     out += list(CANON_REQ)
     return _dedup(out)
 
@@ -224,6 +234,9 @@ def resp_plans(tier: str) -> list:
                SC(cl="zero")):
         for ed in RESP_EDITS:
             out.append((sc, ed))
+    for sc in (SC(te="chunked", cl="none"), SC(te="chunked", cl="none", body="upper"), SC(cl="none", close=True), SC(),
+               SC(te="gzip", cl="none", close=True), SC(te="gzip_chunked", cl="none", body="ext")):
+        out.append((sc, ("limit", "none")))
     out += list(CANON_RESP)
     return _dedup(out)
 
@@ -244,8 +257,8 @@ REQ2 = ((RC(m="GET"), NOED), (RC(m="HEAD"), NOED), (RC(te="chunked"), NOED), (RC
 RESP2 = ((SC(), NOED), (SC(te="chunked", cl="none"), NOED), (SC(cl="none", close=True), NOED),
          (SC(st=304, cl="n"), NOED), (SC(te="chunked", cl="n"), NOED), (SC(pre103=True), NOED),
          (SC(cl="n", close=True), NOED))
-REQ3 = REQ2 + ((RC(cl="two_diff"), NOED), (RC(cl="n"), NOED))
-RESP3 = RESP2 + ((SC(), ("none", "body")), (SC(v="1.0", cl="n"), NOED))
+REQ3 = REQ2 + ((RC(cl="two_diff"), NOED), (RC(cl="n"), NOED), (RC(te="chunked"), ("limit", "none")))
+RESP3 = RESP2 + ((SC(), ("none", "body")), (SC(v="1.0", cl="n"), NOED), (SC(te="chunked", cl="none"), ("limit", "none")))
 
 
 def extra_findings(prop: str):
@@ -398,6 +411,9 @@ def random_scenario(rng: random.Random) -> dict:
                  SC(te="gzip_chunked", cl="none", body="upper"), SC(nm="fold"), SC(cl="none", close=True),
                  SC(cl="n", close=True), SC(te="chunked", cl="none", body="zero")]
     reqs, resps, edits = [], [], {}
+    # body size limits as part of the scenario: messages above the limit are streamed (early when the length is known,
+    # late -- after some pieces were buffered -- when it is not); the stored body must still equal the forwarded one
+    limit = rng.choice([None, None, None, "1", "4", "6", "8", "20"])
     for i in range(1, n + 1):
         if rng.random() < 0.75:
             rc = dict(rng.choice(good_req))
@@ -418,6 +434,8 @@ def random_scenario(rng: random.Random) -> dict:
             hook = rng.choice(["requestheaders", "request", "responseheaders", "response"])
             pool = {"requestheaders": ["hdr", "stream"], "request": ["body", "empty", "line"],
                     "responseheaders": ["hdr", "stream"], "response": ["empty", "status"] + ([] if nobody else ["body"])}
+            if limit is not None:  # hooks after the head was streamed cannot edit what is already on the wire
+                pool = {"requestheaders": ["hdr"], "request": ["none"], "responseheaders": ["hdr"], "response": ["none"]}
             ed = rng.choice(pool[hook])
             if not (ed == "stream" and ("%d:request" % i in edits or "%d:response" % i in edits)):
                 edits["%d:%s" % (i, hook)] = ed
@@ -436,4 +454,7 @@ def random_scenario(rng: random.Random) -> dict:
         steps.append(["c", lat(b"".join(reqs))])
         for i in range(n):
             steps.append(["s", lat(resps[i][0]), resps[i][1]])
-    return {"steps": steps, "edits": edits}
+    out = {"steps": steps, "edits": edits}
+    if limit is not None:
+        out["options"] = {"stream_large_bodies": limit}
+    return out
